@@ -145,3 +145,85 @@ func implAsi(f []string) string {
 	}
 	return fmt.Sprintf("%s/accept:%d", sb.String(), len(prog.Body))
 }
+
+// ---- regular expression literals as statement enders (`asire`): the tokens are the PARSER's (after it re-scans `/` or
+// `/=` as a literal, expression.go:121), so they are assembled here, not taken from the scan-only hook.
+
+var asiRegexps = []string{"/a/", "/a/g", "/ab+c/gi", "/=/", "/=+/", "/=(\\d+)/", "/=x/m", "/[/]/", "/[=/]x/", "/a\\/b/", "/\\//", "/\\[/g", "/[\\]/]+/", "/(?:a|b)*/", "/ /"}
+
+type reTok struct{ text, kind string } // kind: "" punctuator/keyword (wire = text), else IDENTIFIER/NUMBER/REGEX
+
+func reWire(ts []reTok, nlAt int) string {
+	parts := make([]string, 0, len(ts)+1)
+	for i, t := range ts {
+		s := ""
+		if i == nlAt {
+			s = "#"
+		}
+		if t.kind == "" {
+			s += t.text
+		} else {
+			s += t.kind + "~" + astx.Hex(t.text)
+		}
+		parts = append(parts, s)
+	}
+	parts = append(parts, "EOF")
+	return strings.Join(parts, "`")
+}
+
+func genAsiRe(c *h.Ctx) {
+	id := func(s string) reTok { return reTok{s, "IDENTIFIER"} }
+	p := func(s string) reTok { return reTok{s, ""} }
+	seconds := [][]reTok{{id("y"), p("="), {"2", "NUMBER"}}, {p("var"), id("y"), p("="), {"2", "NUMBER"}}, {p("++"), id("i")},
+		{p("if"), p("("), id("y"), p(")"), id("z")}, {id("g")}, {p("this"), p("."), id("q"), p("="), {"1", "NUMBER"}}, {}}
+	for _, re := range asiRegexps {
+		r := reTok{re, "REGEX"}
+		firsts := [][]reTok{{id("x"), p("="), r}, {p("var"), id("v"), p("="), r}, {r}, {id("x"), p("="), id("a"), p("+"), r},
+			{id("x"), p("="), p("["), r, p("]")}, {id("f"), p("("), r, p(")")}}
+		for fi, first := range firsts {
+			for _, sec := range seconds {
+				toks := append(append([]reTok{}, first...), sec...)
+				stmts := 1
+				if len(sec) > 0 {
+					stmts = 2
+				}
+				for _, nl := range asiNL {
+					var sb strings.Builder
+					bits := make([]byte, 0, len(toks)+1)
+					for i, t := range toks {
+						switch {
+						case i == len(first):
+							sb.WriteString(nl)
+							bits = append(bits, '1')
+						case i == 0:
+							bits = append(bits, '0')
+						default:
+							sb.WriteString(" ")
+							bits = append(bits, '0')
+						}
+						sb.WriteString(t.text)
+					}
+					if len(sec) == 0 {
+						sb.WriteString(nl)
+						bits = append(bits, '1')
+					} else {
+						bits = append(bits, '0')
+					}
+					key := "asire:ends-statement"
+					if fi >= 4 {
+						key = "asire:inside-brackets"
+					}
+					c.Add(fmt.Sprintf("asire %s %d %s x%s", bits, stmts, reWire(toks, len(first)), astx.Hex(sb.String())), "asire", key)
+				}
+			}
+		}
+	}
+}
+
+func implAsiRe(f []string) string {
+	prog, err := parser.ParseFile(nil, "", astx.UnHex(f[4][1:]), 0)
+	if err != nil {
+		return "reject"
+	}
+	return fmt.Sprintf("accept:%d", len(prog.Body))
+}
